@@ -265,8 +265,20 @@ func checkC10(c *Ctx) {
 		nrepos = 3
 	}
 	var all []faultRun
-	for ri := 0; ri < nrepos; ri++ {
+	for ri := 0; ri <= nrepos; ri++ {
 		sc := c10Case(rng, fmt.Sprintf("c10-%d", ri+1))
+		large := ri == nrepos
+		if large {
+			// a repository whose listings exceed the 64 KiB of an OS pipe, so that every stage of the
+			// pipelines is blocked on a full pipe when the fault strikes (hangs show here)
+			gp := genParams{NBlob: 1500, NTree: 900, NCommit: 300, NTag: 20, MaxEnt: 6, MaxBlob: 40, Merges: true}
+			names := nameTable(false)
+			g := genGraph(rng, gp, names)
+			sc = cases.ScanCase{ID: "c10-large", G: g, Names: names, Style: "full", Roots: []cases.RootSpec{
+				{O: model.Oid{K: "c", I: len(g.Commits)}, Walk: true, IsRef: true, Name: "refs/heads/main", Kind: "plain"},
+				{O: model.Oid{K: "c", I: len(g.Commits) - 1}, Walk: true, IsRef: true, Name: "refs/heads/topic", Kind: "plain"},
+				{O: model.Oid{K: "g", I: len(g.Tags)}, Walk: true, IsRef: true, Name: "refs/tags/v1", Kind: "plain"}}}
+		}
 		dir, _ := os.MkdirTemp(c.Scratch, "c10repo-")
 		repoDir := filepath.Join(dir, "r")
 		repo, err := materialiseCase(repoDir, &sc)
@@ -280,7 +292,7 @@ func checkC10(c *Ctx) {
 		e.repoDir, e.home = repoDir, dir
 		root := repo.Hex[model.Oid{K: "c", I: 1}]
 		argSets := [][]string{{"--json", "--no-progress", "--branches", "--tags", root}}
-		if ri > 0 || !quick(c) {
+		if (ri > 0 || !quick(c)) && !large {
 			argSets = append(argSets, []string{"--no-progress", "-v"})
 		}
 		for ai, args := range argSets {
@@ -311,7 +323,10 @@ func checkC10(c *Ctx) {
 			var jobs []faultRun
 			for _, t := range targets {
 				offs := map[int64]bool{0: true, 1: true, t.L / 2: true, t.L - 1: true, t.L: true, t.L + 1: true}
-				if !quick(c) {
+				if large {
+					offs = map[int64]bool{0: true, 70000: true, t.L / 2: true, t.L - 1: true, t.L + 1: true}
+				}
+				if !quick(c) && !large {
 					for k := int64(0); k <= t.L && k <= 256; k++ {
 						offs[k] = true
 					}
@@ -395,7 +410,9 @@ func checkC10(c *Ctx) {
 			}
 		}
 		// invalid input classes on this repository
-		all = append(all, e.invalidInputs(sc, repo, ri, "")...)
+		if !large {
+			all = append(all, e.invalidInputs(sc, repo, ri, "")...)
+		}
 	}
 	c.Ev.Exhaustive = false
 }
